@@ -30,6 +30,7 @@ def run(prog, chk):
     geomalg.check(prog, chk, "C12", floor=17)
     from props import C11
     C11.shape_pipeline(prog, chk)  # surround/inside/margin are consumed only in the shape pipeline
+    all_boxes_combined(prog, chk)
 
 
 def _lit(body, t, i):
@@ -216,3 +217,18 @@ def accumulator(prog, chk):
         ok = in_loop and src_local is not None and src_local == dst_local
         detail = f"receiver comes from `{f.local_name(src_local) if src_local is not None else None}`, result goes to `{f.local_name(dst_local) if dst_local is not None else None}`"
     chk.ob(ok, "A13.fold-accumulator", "BoundingBox::intersection", f.where(), "intersection() intersects each further box with the running result (the accumulator is both operand and destination)", "intersection() does not fold over a carried accumulator: " + detail)
+
+
+def all_boxes_combined(prog, chk):
+    """every listed box takes part: BoundingBox::union folds the iterator it is given with combine() - no box is filtered
+    out first (a zero-area box, e.g. a horizontal line, still has to be enclosed)"""
+    b = prog.body("svgdx::position::BoundingBox::union")
+    chk.touch(b)
+    red = b.call_sites(lambda c: c.decl_path == "std::iter::Iterator::reduce" or c.decl_path == "std::iter::Iterator::fold")
+    if len(red) != 1:
+        chk.anchor_missing("A10.all-boxes", f"BoundingBox::union: expected one reduce/fold, found {len(red)}")
+        return
+    bb, t, c = red[0]
+    o = R.origin(b, t["args"][0], carriers={})
+    src = Callee(o[2]["fn"]).decl_path if o[0] == "call" and "fn" in o[2] else o[0]
+    chk.ob(src == "std::iter::IntoIterator::into_iter" or src == "arg", "A10.all-boxes", "BoundingBox::union", b.where(bb, t.get("line")), "union() combines every box of the list", f"union() folds an adapted iterator ({src}) instead of the list it was given: some boxes (e.g. zero-width or zero-height ones) are left out, so a surround element no longer encloses every listed element")
